@@ -1792,13 +1792,59 @@ def real_typeahead():
         real_os.close(sl)
 
 
+def real_thread_change():
+    """ONE Input used in the main thread, then entered again in a WORKER thread with a byte pending: the worker's request must
+    return that byte (D44: a stale wake-up descriptor left over from the main-thread use made select fail with EBADF for
+    ever - the request never returned although a byte was deliverable)"""
+    m, sl = real_os.openpty()
+
+    def body():
+        problems = []
+        inp = cinput.Input(in_stream=_FdStream(sl), keynames="bytes")
+        with inp:
+            real_os.write(m, b"a")
+            first = inp.send(0.5)
+        if first != b"a":
+            problems.append("main-thread use: wrote b'a', request returned %r" % (first,))
+        real_os.write(m, b"b")                    # pending when the worker enters the context
+        box = []
+
+        def work():
+            try:
+                with inp:
+                    box.append(inp.send(1.0))
+            except BaseException as e:  # noqa: BLE001
+                box.append(e)
+        th = threading.Thread(target=work, daemon=True)
+        th.start()
+        th.join(3.0)                              # per-call time budget
+        if th.is_alive():
+            problems.append("a request in a worker-thread context (same Input used in the main thread before) did not return "
+                            "within 3 s although a byte was pending")
+            for name in ("wakeup_read_fd", "wakeup_write_fd"):      # un-stick the spinning request so the run can go on
+                try:
+                    setattr(inp, name, None)
+                except Exception:  # noqa: BLE001
+                    pass
+            th.join(3.0)
+        elif box != [b"b"]:
+            problems.append("worker-thread use after a main-thread use: wrote b'b', request gave %r" % (box,))
+        return problems
+    try:
+        return _guarded(15, body)
+    finally:
+        real_os.close(m)
+        real_os.close(sl)
+
+
 def real_checks(ctx):
     n = 20 if ctx.thorough else 3
     scen = [("mixed sigint_event=True seed %d" % i, lambda i=i: real_mixed(ctx.seed * 1000 + i)) for i in range(n)]
     scen += [("mixed in a non-main thread seed %d" % i, lambda i=i: real_mixed(ctx.seed * 1000 + 500 + i, in_thread=True))
              for i in range(max(1, n // 4))]
     scen += [("KeyboardInterrupt during a blocked request", real_keyboard_interrupt), ("EOF", real_eof),
-             ("type-ahead before entering the context", real_typeahead)]
+             ("type-ahead before entering the context", real_typeahead),
+             ("one Input: main thread, then a worker thread with a byte pending", real_thread_change)]
     for name, fn in scen:
         try:
             probs = fn()
